@@ -176,7 +176,9 @@ def Reachable (s : State) : Prop := ∃ (lim : Nat) (eoc : Bool) (sched : List L
 
 After each client message the harness lets the event loop run until nothing moves.  `settle` is that
 schedule: run every pending notify task (in creation order), then every query task to its end, then
-every sender until its queue is empty.  Fuel bounds the loops; the driver passes enough. -/
+every sender until its queue is empty.  Fuel bounds the loops; the driver passes enough.  `held`
+names query tasks that the harness keeps suspended before their first step (it wraps `run_query`
+from outside), which is how a REQ whose stored query is still running is produced on purpose. -/
 
 def settleNotify (s : State) (isMatch : Nat → Nat → Bool) : Nat → State
   | 0 => s
@@ -198,9 +200,10 @@ def settleSend (s : State) (c : Nat) : Nat → State
     | some s' => settleSend s' c n
     | none => s
 
-def settle (s : State) (isMatch : Nat → Nat → Bool) (fuel : Nat) : State :=
+def settle (s : State) (isMatch : Nat → Nat → Bool) (fuel : Nat) (held : List Nat := []) : State :=
   let s1 := settleNotify s isMatch fuel
-  let s2 := (List.range s1.nextInst).foldl (fun st i => settleQuery st i fuel) s1
+  -- query tasks the harness is holding at their first suspension point do not move
+  let s2 := ((List.range s1.nextInst).filter fun i => !held.contains i).foldl (fun st i => settleQuery st i fuel) s1
   s2.connIds.foldl (fun st c => settleSend st c fuel) s2
 
 end NostrRelay.Proto
